@@ -27,6 +27,12 @@ void with_scoped(int lit, int eid, Mk& sm, unsigned long* line, const std::funct
     W_SC(21, REQUIRE_CALL(sm, f(_)).WITH(_1 > 2).TIMES(AT_MOST(2)).RETURN(wret(eid)))
     W_SC(22, REQUIRE_CALL(sm, v(_)).SIDE_EFFECT(wfx(eid, 0)))
     W_SC(23, REQUIRE_CALL(sm, f(ne(0))).RETURN(wret(eid)))
+    W_SC(24, FORBID_CALL_V(sm, v(_), .WITH(_1 > 2)))
+    W_SC(25, REQUIRE_CALL_V(sm, f(_), .RETURN(wret(eid))))
+    W_SC(26, ALLOW_CALL_V(sm, f(ge(2)), .RETURN(wret(eid))))
+    W_SC(27, FORBID_CALL_V(sm, f(3)))
+    W_SC(28, REQUIRE_CALL_V(sm, f(lt(3)), .TIMES(2) .SIDE_EFFECT(wfx(eid, 0)) .RETURN(wret(eid))))
+    W_SC(29, FORBID_CALL_V(sm, v(_)))
   }
   real::g_activity = ACT_NONE;
 }
